@@ -1,6 +1,6 @@
 //! C12 — StatusList2021 against the bit-vector model.
 //! kinds: 1 per-byte table row (len b o v)   2 list op sequence (n, ops: 0 i v = set | 1 i = get)
-//!        3 credential op sequence (purpose n ops: 0 i v = set_credential_status | 1 i v = update(set_entry) | 2 i = entry)
+//!        3 credential op sequence (purpose n ops: 0 i v = set_credential_status | 1 i v = update(set_entry) | 2 i = entry | 3 k (i v)*k = update(best-effort batch) | 4 k (i v)*k = update(batch with ?))
 //!        4 validator row (list_purpose entry_purpose id_match index bit_set mode has_status parses)
 use crate::common::*;
 use flate2::read::GzDecoder;
@@ -140,6 +140,17 @@ pub fn exec(case: &[i64]) -> Outcome {
             Ok(CredentialStatus::Suspended) => { obs.push(12); if !((i as usize) < len && reference[i as usize] && purpose == StatusPurpose::Suspension) { why = Some(format!("entry {} wrongly suspended", i)); } }
             Err(e) => { obs.push(code(&e)); if (i as usize) < len { why = Some("in-range entry refused".into()); } }
           }
+        } else if ops[0] == 3 || ops[0] == 4 {
+          // one update() call over a batch of writes: 3 = best effort (every refusal swallowed, closure returns Ok), 4 = the first refusal is propagated with `?`
+          let swallow = ops[0] == 3; let n = ops[1] as usize; let batch: Vec<(i64, bool)> = (0..n).map(|k| (ops[2 + 2 * k], ops[3 + 2 * k] != 0)).collect(); ops = &ops[2 + 2 * n..];
+          let r = c.update(|l| { for (i, v) in &batch { let w = l.set_entry(*i as usize, *v); if !swallow { w?; } } Ok(()) });
+          // what the statement demands: every write that is neither out of range nor the clearing of a set revocation entry takes effect, the others change nothing
+          let mut want = reference.clone(); let mut first_refusal: Option<i64> = None;
+          for (i, v) in &batch { let ok = (*i as usize) < len && !(purpose == StatusPurpose::Revocation && want[*i as usize] && !*v); if ok { want[*i as usize] = *v; } else if first_refusal.is_none() { first_refusal = Some(if (*i as usize) >= len { 1 } else { 2 }); if !swallow { break; } } }
+          match r {
+            Ok(()) => { obs.push(0); if !swallow && first_refusal.is_some() { why = Some("a batch containing a refused write was committed".into()); } if want.iter().zip(reference.iter()).any(|(a, b)| !*a && *b) { cleared = true; } reference = want; }
+            Err(e) => { obs.push(code(&e)); refused = true; if swallow || first_refusal.is_none() { why = Some(format!("batch refused: {:?}", e)); } }
+          }
         } else {
           let (route, i, val) = (ops[0], ops[1], ops[2] != 0); ops = &ops[3..];
           let r = if route == 0 {
@@ -243,11 +254,14 @@ pub fn gen(rng: &mut Rng, thorough: bool, sink: &mut Sink) {
     let mut c = vec![3, p, n];
     for _ in 0..rng.range(3, 14) {
       let i = if rng.chance(1, 10) { len + rng.range(0, 3) } else { base + rng.range(0, 11) };
-      match rng.below(5) { 0 => c.extend([2, i]), 1 | 2 => c.extend([0, i, rng.range(0, 1)]), _ => c.extend([1, i, rng.range(0, 1)]) }
+      match rng.below(7) { 0 => c.extend([2, i]), 1 | 2 => c.extend([0, i, rng.range(0, 1)]), 3 | 4 => c.extend([1, i, rng.range(0, 1)]),
+        t => { let n = rng.range(1, 4); c.extend([if t == 5 { 3 } else { 4 }, n]); for _ in 0..n { let j = if rng.chance(1, 8) { len + rng.range(0, 3) } else { base + rng.range(0, 11) }; c.extend([j, if rng.chance(3, 5) { 0 } else { 1 }]); } } }
     }
     sink.case(c, "cred-seq");
   }
   // the minimal one-way-revocation histories of finding F1/F2, always run
   sink.case(vec![3, 0, 131072, 0, 0, 1, 0, 1, 0, 2, 0, 2, 1], "cred-f2");
+  // best-effort and all-or-nothing batches over a set revocation entry, both purposes
+  for p in 0..2 { for t in [3i64, 4] { sink.case(vec![3, p, 131072, 1, 5, 1, t, 1, 5, 0, 2, 5], "cred-batch"); sink.case(vec![3, p, 131072, 0, 5, 1, t, 3, 6, 1, 5, 0, 7, 1, 2, 5, 2, 6, 2, 7], "cred-batch"); sink.case(vec![3, p, 131072, t, 2, 131072, 1, 3, 1, 2, 3], "cred-batch"); } }
   sink.case(vec![2, 131072, 0, 0, 1, 0, 1, 1, 0, 2, 1, 0, 1, 0, 1, 0, 1, 1, 1, 2, 1, 131072], "list-f1-f3");
 }
